@@ -92,6 +92,6 @@ Proof.
   assert (B1 : Rlt_bool (1 - eps) (-1) = false) by (apply Rltb_false; lra).
   assert (B2 : Rlt_bool (-1) (eps - 1) = true) by (apply Rltb_true; lra). rewrite B1, B2. cbn [x3 y3 z3 mk3 fst snd].
   destruct (cos_sin_atan2 a11 a10) as [Cx Sx]; [nra|].
-  unfold euler_closed, m9. rewrite !cos_neg, !sin_neg, Cx, Sx, cos_PI2, sin_PI2, cos_0, sin_0.
+  unfold euler_closed, m9. replace (- PI / 2) with (- (PI / 2)) by field. rewrite !cos_neg, !sin_neg, Cx, Sx, cos_PI2, sin_PI2, cos_0, sin_0.
   repeat (f_equal; try lra).
 Qed.
